@@ -41,7 +41,7 @@ func c11queue(cl *Client) string {
 	return strings.Join(parts, "|")
 }
 
-func c11body(maxConns, nStanzas int) func() {
+func c11body(maxConns, nStanzas, enableN int) func() {
 	return func() {
 		var plan []c11conn
 		cur := 0
@@ -59,7 +59,7 @@ func c11body(maxConns, nStanzas int) func() {
 						return plan[k].resume
 					}
 					if step == "enable" {
-						plan[k].enable = c11enableAns[vrt.ChooseFree("enable-ans", len(c11enableAns))]
+						plan[k].enable = c11enableAns[vrt.ChooseFree("enable-ans", enableN)]
 						hx.Symbol("enable=" + plan[k].enable)
 						return plan[k].enable
 					}
@@ -231,13 +231,20 @@ func TestVerifC11(t *testing.T) {
 	if hx.Thorough() {
 		nStanzas = 3
 	}
-	scs = append(scs, hx.Scenario{Name: "histories", Opt: vrt.Options{Bound: 0, SplitDepth: 6}, Body: c11body(maxConns, nStanzas), Verdict: func(e *vrt.Exec) {
+	verdict := func(e *vrt.Exec) {
 		if e.Panic != nil {
 			vrt.Fail("C11|panic", "%s %s", e.Panic.Value, trimStack(e.Panic.Stack))
 		} else if e.Deadlock {
 			vrt.Fail("C11|hang", "blocked: %s", e.BlockedSummary())
 		}
-	}})
+	}
+	if hx.Thorough() {
+		// four connections with the five basic answers to <enable/>; all nine answers on histories of three connections
+		scs = append(scs, hx.Scenario{Name: "histories", Opt: vrt.Options{Bound: 0, SplitDepth: 6}, Body: c11body(maxConns, nStanzas, 5), Verdict: verdict})
+		scs = append(scs, hx.Scenario{Name: "histories-enable-variants", Opt: vrt.Options{Bound: 0, SplitDepth: 6}, Body: c11body(3, nStanzas, len(c11enableAns)), Verdict: verdict})
+	} else {
+		scs = append(scs, hx.Scenario{Name: "histories", Opt: vrt.Options{Bound: 0, SplitDepth: 6}, Body: c11body(maxConns, nStanzas, len(c11enableAns)), Verdict: verdict})
+	}
 	if hx.Main("C11", scs) == 2 {
 		t.Fatal("internal error")
 	}
